@@ -235,8 +235,9 @@ func (gb GenBank) String() string {
 	keywords = AddPrefix(keywords, indent)
 	b.WriteString("KEYWORDS    " + keywords + "\n")
 
-	source := wrap.Space(gb.Fields.Source.Species, 67)
-	source = AddPrefix(source, indent)
+	// Like DEFINITION, SOURCE is read back line by line (joined with "\n"),
+	// so it is written as it is and not re-wrapped.
+	source := AddPrefix(gb.Fields.Source.Species, indent)
 	b.WriteString("SOURCE      " + source + "\n")
 
 	// The organism name stays on its line: every further line of this
